@@ -801,8 +801,13 @@ def run_literal_forms(case, mon):
     Qi = r["Query"] if case["inner"] == "generic" else Q
     t = r["Table"]("lt")
     doc = {"k": "v", "n": [1, "x`y", {"deep": "it's"}], "`bt`": "\"dq\""}
-    inner = (Qi.from_(t).select(r["JSON"](doc).as_("jd"), r["Array"]().as_("ea"), r["Array"](1, 2).as_("na"))
-             .where(t.j.contains({"a": "b`c"})).where(t.arr == []).where(t.j.has_any_keys([])).where(t.arr2 == [3, 4]))
+    from ..prog import StrEnumU
+    g1 = r["fn.Upper"](t.region).as_("gr1")
+    g2 = r["fn.Lower"](t.channel).as_("gc2")
+    inner = (Qi.from_(t).select(r["JSON"](doc).as_("jd"), r["Array"]().as_("ea"), r["Array"](1, 2).as_("na"), g1, g2)
+             .where(t.j.contains({"a": "b`c"})).where(t.arr == []).where(t.j.has_any_keys([])).where(t.arr2 == [3, 4])
+             .where(t.s1 == "p\\q").where(t.s2 == StrEnumU.pct).where(t.s3.isin([StrEnumU.pct, "x\\y"]))
+             .groupby(g2, g1, g2))
     root = inner
     for lv in range(case["depth"]):
         s_ = root.as_("l%d" % lv)
@@ -841,6 +846,38 @@ def run_literal_forms(case, mon):
         return
     if not pg and not (empties == 0 and brackets == 3 and "[1,2]" in text and "[3,4]" in text and "ARRAY" not in text):
         mon.violation("array-literal:form:%s" % fam, "%s (depth %d, inner class %s): array literals are [] / [..] outside PostgreSQL: %r" % (d, case["depth"], case["inner"], sql[:260]))
+        return
+    # backslashes in string literals - plain strings and enum members alike - are doubled under MySQL and left alone elsewhere
+    strs = [t_.text for t_ in toks if t_.kind == "STR" and "\\" in t_.text and not t_.value.startswith("{")]
+    per = [x.count("\\") for x in strs]
+    want_per = [2, 2, 2, 2] if DIALECT_OF.get(d) == "mysql" else [1, 1, 1, 1]
+    mon.count("backslash_literals_checked", len(strs))
+    if per != want_per:
+        mon.violation("string-escape:backslash:%s" % fam, "%s (depth %d, inner class %s): backslashes per literal %s, expected %s: %r" % (d, case["depth"], case["inner"], per, want_per, strs))
+        return
+    # GROUP BY keys that the select list names: by alias where the dialect groups by alias, written in full where it does not
+    # (SQL Server, Oracle) - every key, in call order, also a repeated one
+    gi = max(i for i, t_ in enumerate(toks) if t_.kind == "WORD" and t_.value == "GROUP")
+    depth_ = 0
+    gtoks = []
+    for t_ in toks[gi + 2:]:
+        if t_.text == "(":
+            depth_ += 1
+        elif t_.text == ")":
+            depth_ -= 1
+            if depth_ < 0:
+                break
+        gtoks.append(t_)
+    gtext = "".join(x.text for x in gtoks)
+    by_alias = DIALECT_OF.get(d) not in ("mssql", "oracle")  # (their builders switch the policy off in their own get_sql)
+    q_ = contexts()[d].alias_quote_char or contexts()[d].quote_char
+    qi_ = contexts()[d].quote_char
+    want_g = ",".join("%s%s%s" % (q_, a_, q_) for a_ in ("gc2", "gr1", "gc2")) if by_alias else "LOWER({0}channel{0}),UPPER({0}region{0}),LOWER({0}channel{0})".format(qi_)
+    mon.count("groupby_key_lists_checked")
+    if case["depth"] == 0 and case["inner"] == "generic" and not by_alias:
+        pass  # (a generic-class statement rendered through a SQL Server / Oracle context: the recorded class-bound-conventions finding)
+    elif gtext.replace(" ", "") != want_g:
+        mon.violation("groupby-alias-policy:keys:%s" % fam, "%s (depth %d, inner class %s): GROUP BY keys are %r, expected %r" % (d, case["depth"], case["inner"], gtext, want_g))
         return
     mon.nontrivial(case)
 
